@@ -452,6 +452,7 @@ func c06HighRes(c *Ctx) {
 	if !c.Quick {
 		cases = append(cases, hr{1, 255, false}, hr{2, 255, false}, hr{0, 510, false}, hr{0, 1023, false}, hr{1, 1019, false}, hr{0, 1000, false}, hr{2, 257, false}, hr{0, 200, true})
 	}
+	c06Sparse(c)
 	parallelFor(len(cases), func(i int) {
 		k := cases[i]
 		r := c.Rng("highres", i)
@@ -549,5 +550,53 @@ func c06HighRes(c *Ctx) {
 		default:
 			c.Distinct(fmt.Sprintf("%s/highres/%s/%d/%d", rname, kind, k.axis, k.cells))
 		}
+	})
+}
+
+// c06Sparse: very high cell counts are only affordable for sparse models - two small balls far apart. Both must be meshed.
+func c06Sparse(c *Ctx) {
+	type sp struct {
+		axis, cells int
+	}
+	cases := []sp{{0, 20100}, {2, 9000}}
+	if !c.Quick {
+		cases = append(cases, sp{1, 40000}, sp{0, 70000}, sp{2, 33000})
+	}
+	parallelFor(len(cases), func(i int) {
+		k := cases[i]
+		r := c.Rng("sparse", i)
+		ball, _ := sdf.Sphere3D(0.5)
+		var ctr [2]v3.Vec
+		ctr[0].Set(k.axis, -100)
+		ctr[1].Set(k.axis, 100)
+		jit := v3.Vec{X: r.R(-0.2, 0.2), Y: r.R(-0.2, 0.2), Z: r.R(-0.2, 0.2)}
+		ctr[1] = ctr[1].Add(jit)
+		s := sdf.Union3D(sdf.Transform3D(ball, sdf.Translate3d(ctr[0])), sdf.Transform3D(ball, sdf.Translate3d(ctr[1])))
+		ts := render.ToTriangles(s, render.NewMarchingCubesOctree(k.cells))
+		c.Eval(1)
+		h := s.BoundingBox().Size().MaxComponent() / float64(k.cells)
+		diag := h * math.Sqrt(3)
+		desc := fmt.Sprintf("two balls r=0.5 at -100 and +100 along axis %d", k.axis)
+		cs := c06Case{i, "octree", k.cells, desc}
+		grid := newTriGrid(ts, diag)
+		for b := 0; b < 2; b++ {
+			far := 0.0
+			for q := 0; q < 300; q++ {
+				u := v3.Vec{X: r.N(), Y: r.N(), Z: r.N()}
+				if u.Length() == 0 {
+					continue
+				}
+				p := ctr[b].Add(u.Normalize().MulScalar(0.5))
+				if d := grid.dist(p, 2); d > far {
+					far = d
+				}
+			}
+			c.Count("highres_surface_points_checked", 300)
+			if far > diag {
+				c.Violate("", fmt.Sprintf("mc-incomplete octree cells=%d %s: a point of ball %d is %g (or more) from the mesh, cell diagonal %g (%d triangles in all)", k.cells, desc, b, far, diag, len(ts)), cs)
+				return
+			}
+		}
+		c.Distinct(fmt.Sprintf("octree/sparse/%d/%d", k.axis, k.cells))
 	})
 }
